@@ -6,6 +6,7 @@ import CstModel.Model.Tree
 import CstModel.Model.Query
 import CstModel.Model.SyntaxText
 import CstModel.Model.Conc
+import CstModel.Model.DataSlot
 namespace Cst.Drv
 
 structure RState where
@@ -32,6 +33,9 @@ structure DState where
   views : Array (Nat × Red.View) := #[]
   conc : Option Conc.Sys := none
   concFrees : Nat := 0
+  /-- data slots by name, and the number of threads of the current execution -/
+  data : List (String × DataSlot.Sys) := []
+  dataThreads : Nat := 0
   /-- debug-abbreviation window of `SyntaxToken::write_debug` (from SourceFacts) -/
   dbgWindow : Nat × Nat × Nat := (25, 21, 25)
 
@@ -41,7 +45,7 @@ def DState.cfg (s : DState) : Cfg :=
 
 def DState.resetCase (s : DState) : DState :=
   { s with interners := #[], caches := #[], builder := none, failNext := false, cps := #[],
-           greens := #[], idMap := [], red := {}, views := #[], conc := none, concFrees := 0 }
+           greens := #[], idMap := [], red := {}, views := #[], conc := none, concFrees := 0, data := [], dataThreads := 0 }
 
 /-- parse `<prefix><n>` -/
 def parseRef (pfx : Char) (s : String) : Option Nat :=
